@@ -186,6 +186,49 @@ theorem prepAll_getD (N : Nat) (m : Int) (a : List Col) (sa : Nat) (i : Nat) (hi
 theorem limbBoundWithOffset_le (full rs rb ib : Nat) (off : Int) : limbBoundWithOffset full rs rb ib off ≤ full := by
   simp only [limbBoundWithOffset, limbBound]; exact Nat.min_le_left _ _
 
+/-- what the tensor forms guarantee about their result `T` (masked operands `aP`, `bP` of `sa` / `sb` limbs, grouped secret `skG`,
+`σ_0 = 1`, `σ_i = s_i`): shape, and `A·phase_{skG}(T) = K·β·(Σσ_i val(aP_i))·(Σσ_j val(bP_j)) + weighted residuals` -/
+def TensorSpec (N rb rs off b : Nat) (a bb : List Col) (aK bK : Nat) (skG : List Poly) (σ : ℕ → R N) (sa sb cols : Nat) (T : List Col) : Prop :=
+  T.length = (cols + 1) * cols / 2 ∧ (∀ c ∈ T, ColWF N rs c) ∧
+      ∃ (eD qD : ℕ → Poly) (eP qP : ℕ → ℕ → Poly),
+        (∀ i, i < cols → (eD i).length = N ∧ (qD i).length = N ∧
+          normInf (eD i) ≤ normTolOff (rb * rs) (b * limbBoundWithOffset (sa + sb - (cnvOffsetSplit b off).1) rs rb b (cnvOffsetSplit b off).2) (cnvOffsetSplit b off).2) ∧
+        (∀ i j, i < j → j < cols → (eP i j).length = N ∧ (qP i j).length = N ∧
+          normInf (eP i j) ≤ normTolOff (rb * rs) (b * limbBoundWithOffset (sa + sb - (cnvOffsetSplit b off).1) rs rb b (cnvOffsetSplit b off).2) (cnvOffsetSplit b off).2) ∧
+        (((2 : R N) ^ b) ^ (sa + sb - (cnvOffsetSplit b off).1 - limbBoundWithOffset (sa + sb - (cnvOffsetSplit b off).1) rs rb b (cnvOffsetSplit b off).2)
+            * (2 : R N) ^ (b * limbBoundWithOffset (sa + sb - (cnvOffsetSplit b off).1) rs rb b (cnvOffsetSplit b off).2 + (-(cnvOffsetSplit b off).2).toNat))
+          * ι N (valP rb N (phase skG (Ks.mkCt rb N T)))
+          = ((2 : R N) ^ (rb * rs) * (2 : R N) ^ (cnvOffsetSplit b off).2.toNat) * ((2 : R N) ^ b)
+              * ((∑ i ∈ range cols, σ i * colVal N ((2 : R N) ^ b) ((prepAll N (msbMaskBottomLimb b aK) a).getD i []))
+                * (∑ j ∈ range cols, σ j * colVal N ((2 : R N) ^ b) ((prepAll N (msbMaskBottomLimb b bK) bb).getD j [])))
+            + ∑ i ∈ range cols,
+                (σ i * σ i * cnvResidual N ((2 : R N) ^ b)
+                    (((2 : R N) ^ b) ^ (sa + sb - (cnvOffsetSplit b off).1 - limbBoundWithOffset (sa + sb - (cnvOffsetSplit b off).1) rs rb b (cnvOffsetSplit b off).2))
+                    ((2 : R N) ^ (rb * rs) * (2 : R N) ^ (cnvOffsetSplit b off).2.toNat)
+                    ((2 : R N) ^ (rb * rs + (b * limbBoundWithOffset (sa + sb - (cnvOffsetSplit b off).1) rs rb b (cnvOffsetSplit b off).2 + (-(cnvOffsetSplit b off).2).toNat)))
+                    ((prepAll N (msbMaskBottomLimb b aK) a).getD i []) ((prepAll N (msbMaskBottomLimb b bK) bb).getD i [])
+                    (cnvOffsetSplit b off).1 (limbBoundWithOffset (sa + sb - (cnvOffsetSplit b off).1) rs rb b (cnvOffsetSplit b off).2) (eD i) (qD i)
+                  + ∑ j ∈ Ico (i + 1) cols, σ i * σ j *
+                      (cnvResidual N ((2 : R N) ^ b)
+                          (((2 : R N) ^ b) ^ (sa + sb - (cnvOffsetSplit b off).1 - limbBoundWithOffset (sa + sb - (cnvOffsetSplit b off).1) rs rb b (cnvOffsetSplit b off).2))
+                          ((2 : R N) ^ (rb * rs) * (2 : R N) ^ (cnvOffsetSplit b off).2.toNat)
+                          ((2 : R N) ^ (rb * rs + (b * limbBoundWithOffset (sa + sb - (cnvOffsetSplit b off).1) rs rb b (cnvOffsetSplit b off).2 + (-(cnvOffsetSplit b off).2).toNat)))
+                          (Hal.colAdd N ((prepAll N (msbMaskBottomLimb b aK) a).getD i []) ((prepAll N (msbMaskBottomLimb b aK) a).getD j []))
+                          (Hal.colAdd N ((prepAll N (msbMaskBottomLimb b bK) bb).getD i []) ((prepAll N (msbMaskBottomLimb b bK) bb).getD j []))
+                          (cnvOffsetSplit b off).1 (limbBoundWithOffset (sa + sb - (cnvOffsetSplit b off).1) rs rb b (cnvOffsetSplit b off).2) (eP i j) (qP i j)
+                        - cnvResidual N ((2 : R N) ^ b)
+                          (((2 : R N) ^ b) ^ (sa + sb - (cnvOffsetSplit b off).1 - limbBoundWithOffset (sa + sb - (cnvOffsetSplit b off).1) rs rb b (cnvOffsetSplit b off).2))
+                          ((2 : R N) ^ (rb * rs) * (2 : R N) ^ (cnvOffsetSplit b off).2.toNat)
+                          ((2 : R N) ^ (rb * rs + (b * limbBoundWithOffset (sa + sb - (cnvOffsetSplit b off).1) rs rb b (cnvOffsetSplit b off).2 + (-(cnvOffsetSplit b off).2).toNat)))
+                          ((prepAll N (msbMaskBottomLimb b aK) a).getD i []) ((prepAll N (msbMaskBottomLimb b bK) bb).getD i [])
+                          (cnvOffsetSplit b off).1 (limbBoundWithOffset (sa + sb - (cnvOffsetSplit b off).1) rs rb b (cnvOffsetSplit b off).2) (eD i) (qD i)
+                        - cnvResidual N ((2 : R N) ^ b)
+                          (((2 : R N) ^ b) ^ (sa + sb - (cnvOffsetSplit b off).1 - limbBoundWithOffset (sa + sb - (cnvOffsetSplit b off).1) rs rb b (cnvOffsetSplit b off).2))
+                          ((2 : R N) ^ (rb * rs) * (2 : R N) ^ (cnvOffsetSplit b off).2.toNat)
+                          ((2 : R N) ^ (rb * rs + (b * limbBoundWithOffset (sa + sb - (cnvOffsetSplit b off).1) rs rb b (cnvOffsetSplit b off).2 + (-(cnvOffsetSplit b off).2).toNat)))
+                          ((prepAll N (msbMaskBottomLimb b aK) a).getD j []) ((prepAll N (msbMaskBottomLimb b bK) bb).getD j [])
+                          (cnvOffsetSplit b off).1 (limbBoundWithOffset (sa + sb - (cnvOffsetSplit b off).1) rs rb b (cnvOffsetSplit b off).2) (eD j) (qD j)))
+
 /-- **`glwe_tensor_apply`, END TO END** (every rank, any radix pair with `rb ≤ 61`, every `cnv_offset`, both accumulator widths).  With the
 grouped secret `skG` of `glwe_tensor_decrypt` (`ι(skG[cix(i,j) − 1]) = σ_i·σ_j`, `σ_0 = 1`), the masked operands `a'`, `b'` and
 `x_i = val(a'_i)`, `y_j = val(b'_j)`: the call returns a well-formed tensor `T` and
@@ -401,5 +444,27 @@ theorem tensorApply_total (big128 : Bool) (N rb rs off b : Nat) (a bb : List Col
       · rw [if_neg h0]
         exact hτ i j hij hjc (by omega))
   exact hid
+
+/-- `tensorApply_total` with the conclusion packaged as `Core.TensorSpec` -/
+theorem tensorApply_spec (big128 : Bool) (N rb rs off b : Nat) (a bb : List Col) (aK bK : Nat) (res0 : List Col) (skG : List Poly)
+    (σ : ℕ → R N) (H : Int) (sa sb cols : Nat) (hN : 0 < N)
+    (hcols : a.length = cols) (hcb : bb.length = cols) (hc1 : 1 ≤ cols)
+    (ha : ∀ x ∈ a, x.length = sa ∧ ∀ l ∈ x, l.length = N) (hbb : ∀ x ∈ bb, x.length = sb ∧ ∀ l ∈ x, l.length = N)
+    (hsa : 1 ≤ sa) (hsb : 1 ≤ sb) (hhi : (cnvOffsetSplit b off).1 ≤ sa + sb - 1)
+    (hr0 : res0.length = (cols + 1) * cols / 2)
+    (hrb1 : 1 ≤ rb) (hrb : rb ≤ 61) (hb1 : 1 ≤ b) (hb : b ≤ 62) (hH0 : 0 ≤ H) (hH : H + 8 ≤ 2 ^ (bitsOf big128 - 2))
+    (haccD : ∀ i, i < cols → ∀ l ∈ Hal.cnvApplyCol N (limbBoundWithOffset (sa + sb - (cnvOffsetSplit b off).1) rs rb b (cnvOffsetSplit b off).2)
+        (cnvOffsetSplit b off).1 ((prepAll N (msbMaskBottomLimb b aK) a).getD i []) ((prepAll N (msbMaskBottomLimb b bK) bb).getD i []),
+        ∀ v ∈ l, |v| ≤ H)
+    (haccP : ∀ i j, i < j → j < cols → ∀ l ∈ Hal.cnvApplyCol N (limbBoundWithOffset (sa + sb - (cnvOffsetSplit b off).1) rs rb b (cnvOffsetSplit b off).2)
+        (cnvOffsetSplit b off).1
+        (Hal.colAdd N ((prepAll N (msbMaskBottomLimb b aK) a).getD i []) ((prepAll N (msbMaskBottomLimb b aK) a).getD j []))
+        (Hal.colAdd N ((prepAll N (msbMaskBottomLimb b bK) bb).getD i []) ((prepAll N (msbMaskBottomLimb b bK) bb).getD j [])),
+        ∀ v ∈ l, |v| ≤ H)
+    (hskl : skG.length = (cols + 1) * cols / 2 - 1) (hσ0 : σ 0 = 1)
+    (hτ : ∀ i j, i ≤ j → j < cols → 0 < cix cols i j → ι N (skG.getD (cix cols i j - 1) []) = σ i * σ j) :
+    ∃ T, tensorApply false big128 N rb rs off b a aK bb bK res0 = some T ∧ TensorSpec N rb rs off b a bb aK bK skG σ sa sb cols T :=
+  tensorApply_total big128 N rb rs off b a bb aK bK res0 skG σ H sa sb cols hN hcols hcb hc1 ha hbb hsa hsb hhi hr0 hrb1 hrb hb1 hb hH0 hH
+    haccD haccP hskl hσ0 hτ
 
 end Core
